@@ -226,7 +226,14 @@ func init() {
 								}
 								fr := strings.SplitN(fresh, " exit=", 2)[0]
 								c.Count("fresh_process_runs", 5)
-								if inproc != fr {
+								// a command that returns an error: main() prints the error on standard output before exiting,
+								// the in-process driver calls the command without main(): only the status is compared then
+								failed := !strings.Contains(st.ref, ` err=""`)
+								if failed != !strings.HasSuffix(strings.SplitN(fresh, " exit=", 2)[1][:5], "<nil>") {
+									cc, _ := c19resolve(e.Args)
+									return fmt.Sprintf("C18/%s/in-process-vs-fresh-process", cc.CommandPath()), fmt.Sprintf("`gotree %s`: in-process run fails=%v, fresh process: %.300s", strings.Join(args, " "), failed, fresh)
+								}
+								if !failed && inproc != fr {
 									cc, _ := c19resolve(e.Args)
 									return fmt.Sprintf("C18/%s/in-process-vs-fresh-process", cc.CommandPath()), fmt.Sprintf("`gotree %s`: standard output of a fresh process differs from the in-process run:\n   in-process: %.300s\n   fresh:      %.300s", strings.Join(args, " "), inproc, fr)
 								}
